@@ -27,6 +27,8 @@ type Case struct {
 	OpNS   bool           `json:"opns"`
 	Remove bool           `json:"remove"`
 	Faults []vlib.NCFault `json:"faults"` // one per step
+	// Wire: instead of a history over the fake driver, one Set through the real driver wrapper over a canned session
+	Wire *WireCase `json:"wire,omitempty"`
 }
 
 func genFault(t *rapid.T) vlib.NCFault {
@@ -54,6 +56,9 @@ func genFault(t *rapid.T) vlib.NCFault {
 }
 
 func gen(t *rapid.T) *Case {
+	if rapid.IntRange(0, 9).Draw(t, "wire-mode") == 4 || os.Getenv("VERIF_C18_WIRE") != "" {
+		return &Case{Wire: genWire(t), Hist: &vlib.HistCase{Universe: "plain", Palette: []string{"a", "b", "c"}}}
+	}
 	uni := rapid.SampledFrom([]*vlib.Universe{vlib.UniPlain, vlib.UniPlain, vlib.UniChoice}).Draw(t, "universe")
 	o := vlib.HistGenOpts{Universe: uni, MinSteps: 1, MaxSteps: 6, WithInit: true, AllowOrphan: false}
 	c := &Case{Hist: vlib.GenHistCase(t, o)}
@@ -97,6 +102,9 @@ func ops(calls []vlib.NCCall) string {
 }
 
 func Exec(c *Case) (nontrivial bool, labels []string, fail *vlib.Failure) {
+	if c.Wire != nil {
+		return execWire(c.Wire)
+	}
 	ctx := context.Background()
 	env := vlib.MustEnv()
 	fake := vlib.NewNCFake()
